@@ -493,3 +493,26 @@ Proof.
   rewrite !sec_of_keyed.
   destruct (last_opt (flat_map (exp_ret c ra) fields)); destruct (flat_map exp_exc fields); reflexivity.
 Qed.
+
+(* ---- finding C13-F8 in the model: a :type: field after its :param: loses against the signature *)
+Definition f8_ctx : pctx := mkCtx (Some [(s_of "a", (Some (s_of "int"), None))]) (Some []) RNone.
+Definition f8_lines : list str := [s_of "Summary."; []; s_of ":param a: The a."; s_of ":type a: str"].
+Definition f8_lines_swapped : list str := [s_of "Summary."; []; s_of ":type a: str"; s_of ":param a: The a."].
+
+Lemma sphinx_type_after_param_F8 :
+  parse_sphinx f8_ctx true f8_lines =
+    [GText (s_of "Summary."); GItems KParams None [mkItem (Some (s_of "a")) (Some (s_of "int")) (s_of "The a.") None]] /\
+  parse_sphinx f8_ctx true f8_lines_swapped =
+    [GText (s_of "Summary."); GItems KParams None [mkItem (Some (s_of "a")) (Some (s_of "str")) (s_of "The a.") None]].
+Proof. split; vm_compute; reflexivity. Qed.
+
+Definition sphinx_sample_text : list str := [s_of "Summary."; []; s_of "More: text."].
+Definition sphinx_sample : list sfield :=
+  [SFParam "param" None (s_of "a") (s_of "The a,") [s_of "continued."];
+   SFRaises "raises" (s_of "ValueError") (s_of "When bad.") [];
+   SFParam "keyword" (Some (s_of "int")) (s_of "b") (s_of "The b.") [];
+   SFReturns "returns" (s_of "Nothing: really.") [];
+   SFVar "ivar" (s_of "x") (s_of "An x.") []].
+
+Example sphinx_sample_wf : wf_sphinx sphinx_sample_text sphinx_sample = true.
+Proof. vm_compute. reflexivity. Qed.
